@@ -11,6 +11,7 @@ from typing_extensions import Self
 from sigma import exceptions as sigma_exceptions
 from sigma.correlations import SigmaCorrelationRule, SigmaRuleReference
 from sigma.rule import SigmaDetection, SigmaDetections, SigmaLogSource, SigmaRule, SigmaRuleBase
+from sigma.rule.logsource import EmptyLogSource
 
 if TYPE_CHECKING:
     from sigma.exceptions import SigmaRuleLocation
@@ -94,6 +95,20 @@ class SigmaGlobalFilter(SigmaDetections):
 
 
 @dataclass
+class EmptySigmaGlobalFilter(SigmaGlobalFilter):
+    """
+    Empty Sigma filter definition that is used as a placeholder for error handling purposes.
+    """
+
+    detections: dict[str, SigmaDetection] = field(default_factory=dict)
+    condition: list[str] = field(default_factory=list)
+
+    def __post_init__(self: Self) -> None:
+        # Skip all checks and initializations
+        pass
+
+
+@dataclass
 class SigmaFilter(SigmaRuleBase):
     """
     SigmaFilter class is used to represent a Sigma filter object.
@@ -117,6 +132,8 @@ class SigmaFilter(SigmaRuleBase):
         kwargs, errors = super().from_dict_common_params(sigma_filter, collect_errors, source)
 
         # parse log source
+        filter_logsource: SigmaLogSource = EmptyLogSource()
+        filter_global_filter: SigmaGlobalFilter = EmptySigmaGlobalFilter()
         try:
             filter_logsource = SigmaLogSource.from_dict(sigma_filter["logsource"], source)
         except KeyError:
